@@ -130,7 +130,7 @@ PROPS = {
         "level": "exploration",
         "rule": HISTORY_RULE + "non-trivial = the history changed the structure of a tree at least once (leaf count or depth changed "
                 "between two commits, an overflow run was written, or the file grew) as measured on the file by the independent parser.",
-        "run": generic(sanitizers=('asan',), thorough_profiles=("verif-rel",)),
+        "run": generic(sanitizers=('asan',), thorough_profiles=("verif-rel",), quick_profiles=("verif-rel",)),
         "floors": {"any": {"commits": 100, "leaf_count_increases(splits)": 5, "leaf_count_decreases(merges)": 5,
                            "depth_decreases(root_collapse)": 1, "depth_increases": 1, "reopens": 10, "rollbacks": 5,
                            "commits_with_overflow_runs": 5}},
@@ -281,7 +281,7 @@ PROPS = {
                 "reopen with the configuration-free model and the independent parser; growth runs of 26-70 MiB from the 4-page minimum file; page sizes "
                 "{1025,1027,1030,2049,4097,5001,65537} each in a child process: must work (same oracle) or be refused before any file is written - a dying "
                 "process is a violation. non-trivial = pair whose history committed at least once and ran to the end (growth runs: >= 2 extensions).",
-        "run": generic(thorough_profiles=("verif-rel",)),
+        "run": generic(thorough_profiles=("verif-rel",), quick_profiles=("verif-rel",)),
         "floors": {"any": {"commits_verified": 300, "commits_under_strict_mode": 100, "growth_runs": 3, "file_extensions_observed_in_growth_runs": 6, "directed_growth_histories": 4}},
         "assumptions": ["the reference model is configuration-free by construction"],
     },
@@ -296,7 +296,7 @@ PROPS = {
                 "for the small files, a sweep of ~250 other sizes incl. non-multiples of 8 next to the real one) without changing the file. Legacy-header "
                 "files with 1..5 commits (newest legacy header in slot 0 and in slot 1) get the same treatment. Per produced file: the pinned-layout reader must parse "
                 "it to the manifest contents. The space is finite and fully enumerated (exhaustive). non-trivial = every case.",
-        "run": generic(sanitizers=('asan',), thorough_profiles=("verif-rel",), pre=unpack_golden, extra_sets=("golden=" + os.path.join(ROOT, "out", "golden"),)),
+        "run": generic(sanitizers=('asan',), thorough_profiles=("verif-rel",), quick_profiles=("verif-rel",), pre=unpack_golden, extra_sets=("golden=" + os.path.join(ROOT, "out", "golden"),)),
         "floors": {"any": {"golden_files_checked": 8, "legacy_header_files_checked": 4, "opens_fully_verified_against_manifest": 8,
                            "further_commits_on_golden_files": 800, "legacy_files_with_1_to_5_commits_checked": 10, "files_whose_free_list_exactly_fills_its_pages_reopened": 2,
                            "free_list_walk_reopens": 300, "mismatching_page_sizes_refused": 48, "files_produced_by_current_code_parsed": 4,
